@@ -226,12 +226,7 @@ async fn update_provision_state(
 ) {
     if let Ok(provision_state) = provision_shared_state.update_one_state(state).await {
         if provision_state.contains(ProvisionFlags::ALL_READY) {
-            if let Err(e) = provision_shared_state.set_provision_finished(true).await {
-                // log the error and continue
-                logger::write_error(format!(
-                    "update_provision_state::Failed to set provision finished with error: {e}"
-                ));
-            }
+            // the finished time tick was stamped by the actor together with this update
 
             // write provision success state here
             write_provision_state(
@@ -262,20 +257,9 @@ async fn reset_provision_state(
     state_to_reset: ProvisionFlags,
     provision_shared_state: ProvisionSharedState,
 ) {
-    let provision_state = match provision_shared_state.reset_one_state(state_to_reset).await {
-        Ok(state) => state,
-        Err(e) => {
-            logger::write_error(format!("Failed to reset provision state with error: {e}"));
-            return;
-        }
-    };
-    if let Err(e) = provision_shared_state
-        .set_provision_finished(provision_state.contains(ProvisionFlags::ALL_READY))
-        .await
-    {
-        logger::write_error(format!(
-            "reset_provision_state::Failed to set provision finished with error: {e}"
-        ));
+    // the actor zeroes the finished time tick together with the reset
+    if let Err(e) = provision_shared_state.reset_one_state(state_to_reset).await {
+        logger::write_error(format!("Failed to reset provision state with error: {e}"));
     }
 }
 
